@@ -82,7 +82,7 @@ func (b *exampleBuilder) buildExampleForObjectNode(node *ischema.ObjectNode) ([]
 		}
 	}
 	buf.WriteByte('}')
-	return buf.Bytes(), nil
+	return ownedCopy(buf.Bytes()), nil
 }
 
 func (b *exampleBuilder) buildObjectKey(k ischema.ObjectNodeKey) ([]byte, error) {
@@ -142,7 +142,7 @@ func (b *exampleBuilder) buildExampleForArrayNode(node *ischema.ArrayNode) ([]by
 		}
 	}
 	buf.WriteByte(']')
-	return buf.Bytes(), nil
+	return ownedCopy(buf.Bytes()), nil
 }
 
 func (b *exampleBuilder) buildExampleForMixedValueNode(node *ischema.MixedValueNode) ([]byte, error) {
@@ -223,7 +223,7 @@ func buildExampleForObjectNode(
 		}
 	}
 	b.WriteByte('}')
-	return b.Bytes(), nil
+	return ownedCopy(b.Bytes()), nil
 }
 
 func buildExampleForArrayNode(
@@ -251,10 +251,20 @@ func buildExampleForArrayNode(
 		}
 	}
 	b.WriteByte(']')
-	return b.Bytes(), nil
+	return ownedCopy(b.Bytes()), nil
 }
 
 var exampleBufferPool = sync.NewBufferPool(512)
+
+// ownedCopy returns a copy of b. The builders write into pooled buffers that
+// are handed back (deferred Put) when they return: returning buf.Bytes()
+// itself would give the caller a slice that the next user of the pool
+// overwrites.
+func ownedCopy(b []byte) []byte {
+	c := make([]byte, len(b))
+	copy(c, b)
+	return c
+}
 
 func buildExampleForMixedValueNode(
 	node *ischema.MixedValueNode,
